@@ -25,13 +25,13 @@ CHECKS = {
          "While a modifier is certainly absorbed: (a) no observed firing of a mapping requiring it from another trigger, (b) it is not down at non-modifier presses, (c) immediate re-press of the trigger refires, (d) an unabsorbed modifier counts. (The stacked-absorption corner found by this check was first recorded as a known finding and later repaired, commit 5511313; its signature no longer suppresses anything.)"),
  "C09": ("model_checking", "A", "6-C09", "explicit-state BFS over the real Mapper::step; reference repeat instruction as transition predicate",
          "Every step's repeat instruction (Repeating exactly the fired Special mapping's parameters / Disabled / NoChange with no events for ignored events) in every reachable state."),
- "C10": ("model_checking", "B", "4, 6-C10", "stateless DFS (prefix replay) over all delivery schedules of the real per-device loop under a scripted driver; plus bounded-exhaustive stepped scenarios of the real driver on real descriptors (Engine R)",
+ "C10": ("model_checking", "B", "4, 6-C10", "stateless DFS (prefix replay) over all delivery schedules of the real per-device loop under a scripted driver; plus bounded-exhaustive stepped scenarios of the real driver on real descriptors and a hang-up probe (Engine R)",
          "Every history over a small key alphabet up to the length bound, every way of batching it into arrivals under edge-triggered readiness, late arrivals between reads, spurious time-outs and interruptions up to the deviation bound, end-of-device at every point: the writes equal a fresh real mapper's non-empty step outputs, each written at once; no poll while notified events are unread; no call after End."),
  "C11": ("model_checking", "B", "4.2, 6-C11, 7.7", "stateless DFS over delivery schedules and time-out placements with a virtual clock owned by the environment",
          "Every placement of on-time and late time-outs between events: poll time-outs never reach beyond the next due time, a chord is written exactly in reaction to a time-out at/after the due time anchored at the firing (no drift), its payload leaves held keys alone and the held set unchanged, nothing is written at other times."),
  "C12": ("model_checking", "B", "4.2, 6-C12, 7.6", "stateless DFS over delivery schedules including tablet-switch events on a second device; plus bounded-exhaustive stepped scenarios of the real driver and tablet-switch reader on real descriptors (Engine R)",
          "Every placement of On/Off events (repeated, Off first, sharing a wake-up with keyboard events in both orders, while chords or timers are live): held keys released at once, nothing written until Off, fresh start after Off."),
- "C20": ("fault_enumeration", "B", "6-C20", "exhaustive fault injection: every driver call of every explored execution fails in turn; plus descriptor-state faults (EAGAIN, EPIPE, ECONNRESET) under the real driver at every step of stepped scenarios (Engine R)",
+ "C20": ("fault_enumeration", "B", "6-C20", "exhaustive fault injection: every driver call of every explored execution fails in turn; plus descriptor-state faults (EAGAIN, EPIPE, ECONNRESET, a device with room for only part of a report) under the real driver at every step of stepped scenarios (Engine R)",
          "For every execution of the schedule set and every k: the k-th driver call returns an error; the loop must return that error and make no further driver call."),
  "C13": ("exploration", "C", "5.1, 6-C13", "bounded-exhaustive enumeration of layout programs from a grammar against a reference expander (differential through the real loader)",
          "Every program of the grammar (alias set-ups x rows x positions x all printable ASCII characters; single mappings over modifier/output/repeat/absorbing forms with neighbours; whole-row programs; ordered tuples of sources): the converter's output equals the hand-written expansion, group by group in source order; respelled variants convert identically."),
@@ -39,11 +39,11 @@ CHECKS = {
          "Every byte string up to the length bound, schema-shaped JSON over an atom menu, all single (thorough: pair) structure-aware mutations of seed layouts, repeated keys/aliases at every position: load returns Ok or Err, never panics or dies; every accepted layout, and every layout of the generated mapper families (up to four keys held), is explored by Engine A to a fixpoint without a panic; the real binary (`remap --layout-file F`) ends with status 0 or 1 on every structured input."),
  "C15": ("exploration", "C", "5.4, 6-C15", "exhaustive enumeration over all key codes and a layout shape family; save with the installer's call, reload with the real loader; end-to-end through the real binary's add_systemd_service in a private mount namespace (Engine E)",
          "All key codes the tool knows in every syntactic position, the shape family with extreme numbers, the converted fixed corpus: the reloaded mapping list equals the saved one; also through the real private write_layout_to_global_config into a private /etc inside a mount namespace, and through the real binary's `add_systemd_service --layout-file F` (files in basic and in shorthand syntax, built-in names) whose saved file is reloaded and compared with what the loader makes of F."),
- "C16": ("exploration", "C", "5.4, 6-C16", "bounded-exhaustive enumeration of device-list texts and exclude sets; end-to-end runs of the real binary in a private mount namespace",
+ "C16": ("exploration", "C", "5.4, 6-C16", "bounded-exhaustive enumeration of device-list texts and exclude sets (independence, agreement, anchors from the kernel's bitmap format); end-to-end runs of the real binary in a private mount namespace",
          "Every sequence of device entries up to the bound through both private extractors (independence of neighbours, agreement of the two discovery paths), every exclude set against an independent glob matcher, and the real binary's list_keyboards / --all-keyboards / --dev-file --only-if-keyboard selection over fabricated /proc, /sys and /dev."),
  "C17": ("exploration", "C", "5.2, 6-C17", "exhaustive enumeration (all Unicode scalar values, all short strings over the syntax alphabet, pattern lists) against a reference systemd ExecStart reader, in-process through build_service_text and end-to-end through the unit file written by the real binary's add_systemd_service in a private mount namespace (Engine E)",
          "Every input goes through the real build_service_text; the reference reader (split, unquote, C-unescape, % specifiers, $ variables) must return the expected argument vector with every pattern byte-identical (order and repetition of the --exclude pairs are not constrained, DESIGN 7.10); the same oracle reads the unit file the real binary writes for every scalar value, alphabet pair and long list."),
- "C18": ("exploration", "C", "5.3, 6-C18", "exhaustive enumeration over all key codes, short batches and record-kind sequences; real writer and reader over a pipe with libc::input_event as layout oracle",
+ "C18": ("exploration", "C", "5.3, 6-C18", "exhaustive enumeration over all key codes, short and long batches, devices with little room and record-kind sequences; real writer and reader over a pipe with libc::input_event as layout oracle; large batches through the real driver on real descriptors (Engine R)",
          "Every key code x press/release, every short batch over boundary codes: byte length, every record's type/code/value at libc's offsets, exactly one trailing SYN_REPORT; the real reader returns the same events then EAGAIN and skips every foreign record kind in every sequence up to the bound."),
  "C19": ("model_checking", "A", "6-C19", "explicit-state BFS over the real Mapper::step; fold of the emitted stream",
          "Within every step's event list and every release_all batch, from every reachable state: press only of an up key, release only of a down key."),
@@ -63,7 +63,7 @@ def repo_hook_commits():
 ENGINES = [
  {"name": "A", "path": "harness/src/engine_a.rs", "serves_properties": ["C01","C02","C03","C04","C05","C06","C07","C08","C09","C19","C14"], "kind_free_text": "explicit-state BFS to fixpoint over the real Mapper::step/release_all with product monitors; partition refinement for C06"},
  {"name": "B", "path": "harness/src/engine_b.rs", "serves_properties": ["C10","C11","C12","C20"], "kind_free_text": "stateless DFS over environment choices of a scripted driver + virtual clock running the real do_remapping_loop_one_device"},
- {"name": "R", "path": "harness/src/engine_r.rs", "serves_properties": ["C10","C12","C20"], "kind_free_text": "the real RealDriver, readers, writer and poll registry over socket pairs and a pipe, stepped deterministically (loop thread observed at rest in epoll_wait); bounded-exhaustive scenario families with descriptor-state faults"},
+ {"name": "R", "path": "harness/src/engine_r.rs", "serves_properties": ["C10","C12","C18","C20"], "kind_free_text": "the real RealDriver, readers, writer and poll registry over socket pairs and a pipe, stepped deterministically (loop thread observed at rest in epoll_wait); bounded-exhaustive scenario families with descriptor-state faults"},
  {"name": "E", "path": "harness/src/e2e.rs", "serves_properties": ["C14","C15","C17"], "kind_free_text": "the real binary (guard off) in a private mount namespace with a private /etc and /dev and no-op helper programs: add_systemd_service and remap --layout-file over the same exhaustive input families, the files it leaves behind judged by the in-process oracles (DESIGN 5.5)"},
  {"name": "C", "path": "harness/src", "serves_properties": ["C13","C14","C15","C16","C17","C18"], "kind_free_text": "bounded-exhaustive input enumeration of the pure functions against small reference models; one file per property: c13.rs ... c18.rs"},
 ]
